@@ -9,7 +9,7 @@
   thread (`Thread`, Lemmas/EndpointThreads.lean).  `actThreads a` says whose own step an action is;
   all other actions are the environment: the application (`callStart`, `ctxCancel`, `cancelLink`),
   the peer/transport (`respFrame`, `closureInvoke`, `setErrEnter` = a loop reporting a failed
-  read/write), the `context` package (`ctxPropagate`), the ctx watcher starting (`watcher`).
+  read/write), the application's closure bodies returning (`closureBodyDone`), the `context` package (`ctxPropagate`), the ctx watcher starting (`watcher`).
 
       live s th      started and not finished
       parked s th    at a blocking operation: the stub's select, the receive function's select,
